@@ -183,6 +183,15 @@ func fixtures() []*eraFix {
 		}
 	}
 	for _, e := range list {
+		if e.name == "dijkstra" && len(e.txs) == 0 {
+			// the Dijkstra block fixture carries no transaction: use the stand-alone one
+			if b, err := space.ReadHexFixture("ledger/dijkstra/testdata/cardano_ledger_dijkstra_w30_tx.hex"); err == nil {
+				if r, err := space.Parse(b); err == nil && r.IsArray() && r.Len() >= 2 {
+					e.txs = append(e.txs, b)
+					e.bodies = append(e.bodies, sub(b, r.Items[0]))
+				}
+			}
+		}
 		addParamUpdateTx(e)
 	}
 	fixturesCache = list
@@ -704,11 +713,17 @@ func allDecoders() []*decoder {
 			continue
 		}
 		var ts, bds []seed
+		tOnly := func(b []byte) string {
+			if len(b) > 8000 {
+				return "t-" // thorough tier only (see decoderFamilies)
+			}
+			return ""
+		}
 		for i, t := range e.txs {
-			ts = append(ts, seed{fmt.Sprintf("%s-tx%d", e.name, i), t})
+			ts = append(ts, seed{fmt.Sprintf("%s%s-tx%d", tOnly(t), e.name, i), t})
 		}
 		for i, t := range e.bodies {
-			bds = append(bds, seed{fmt.Sprintf("%s-txbody%d", e.name, i), t})
+			bds = append(bds, seed{fmt.Sprintf("%s%s-txbody%d", tOnly(t), e.name, i), t})
 		}
 		for i, t := range e.outs {
 			allOuts = append(allOuts, seed{fmt.Sprintf("%s-out%d", e.name, i), t})
@@ -718,7 +733,7 @@ func allDecoders() []*decoder {
 				allAux = append(allAux, seed{fmt.Sprintf("%s-aux%d", e.name, i), t})
 			}
 		}
-		if len(ts) > 0 {
+		if len(ts) > 0 && len(ts[0].b) <= 8000 {
 			allTxs = append(allTxs, ts[0])
 			add(&decoder{name: "ledger.NewTransactionFromCbor:" + e.name, seeds: ts, fn: func(b []byte) error {
 				_, err := ledger.NewTransactionFromCbor(e.txType, b)
